@@ -7,9 +7,33 @@ from . import common as C
 from . import translate_schema as TS
 
 
+TABLES = ("spec", "spec_no_listaggregates", "elements", "subaggregates", "unsupported", "listaggregates", "listelements")
+
+
+def touch_bases():
+    """history stress shared by every schema check: an application (a schema lister, a subclassing user) may read the class-level tables of
+    the abstract bases (Aggregate, ElementList, TrnRq, TrnRs, SyncRqList, ...) before any concrete class is used; what a class declares must
+    not depend on that.  Every class's tables are read here bases-first (breadth-first from Aggregate), before anything else touches the
+    models; C13's order probe compares this history with the opposite one in fresh interpreters."""
+    M, Aggregate, ElementList, Types = TS.load()
+    order, i = [Aggregate], 0
+    while i < len(order):
+        for s in order[i].__subclasses__():
+            if s not in order:
+                order.append(s)
+        i += 1
+    for c in order:
+        for p in TABLES:
+            try:
+                getattr(c, p)
+            except Exception:
+                pass
+
+
 class Ctx:
     """live classes + the translator's numbering of element types"""
     def __init__(self):
+        touch_bases()
         self.d = TS.generate()
         self.M, self.Aggregate, self.ElementList, self.Types = TS.load()
         from ofxtools.models.base import UnknownTagWarning
